@@ -150,6 +150,7 @@ let kop_of_string s =
   match s with
   | "i256" -> Ki256 | "sdmf" -> Ksdmf | "divr" -> Kdivr | "sdr" -> Ksdr | "mdr" -> Kmdr
   | "dmf" -> Kdmf | "mag" -> Kmag | "mulw" -> Kmulw | "idiv" -> Kidiv
+  | "idiv64" -> Kidiv64 | "idivs" -> Kidivs | "msb" -> Kmsb | "lt5" -> Klt5 | "chd" -> Kchd | "chv" -> Kchv
   | _ -> failwith "kop"
 
 let mkd c p = { coeff = z_of_hex c; nfd = zd p }
